@@ -400,3 +400,29 @@ Definition pull_locations (g : graph) (s : state) (i : nat) : state :=
                           (None :: map Some (result_workers g s p)))
                (n_parents (nd g i)) in
   set_n s i (fun x => mkN (started x) (finished x) (results x) (rerun_off x) (mct_now x) (add_locs g (locs x) new)).
+
+(* ---- graph hypotheses of the mutual exclusion theorem (Proofs/TraverseExcl.v), as an executable check: a
+        composite node other than the root has one owner; the bridged copies form classes (every member sees the
+        same class) that agree on flat/scope; the designated root is marked as root ---- *)
+Definition scope_eqb (a b : scope_kind) : bool :=
+  match a, b with Global, Global | PerWorker, PerWorker | PerSwarm, PerSwarm => true | _, _ => false end.
+Definition gwf_b (g : graph) : bool :=
+  forallb (fun i =>
+     let n := nd g i in
+     (n_flat n || Nat.eqb i (g_root g) || forallb (fun v => forallb (fun w => Nat.eqb v w) (n_owners n)) (n_owners n)) &&
+     forallb (fun m => subset (class_of g m) (class_of g i) && subset (class_of g i) (class_of g m) &&
+                       Bool.eqb (n_flat (nd g m)) (n_flat n) && scope_eqb (n_scope (nd g m)) (n_scope n)) (class_of g i))
+    (seq 0 (length (g_nodes g))) &&
+  n_root (nd g (g_root g)).
+
+
+(* the same without the agreement on the reuse scope (copies of mixed lxc / remote workers under a partial pool_scope
+   derive different scopes: the theorem does not cover those graphs) *)
+Definition gwf_core_b (g : graph) : bool :=
+  forallb (fun i =>
+     let n := nd g i in
+     (n_flat n || Nat.eqb i (g_root g) || forallb (fun v => forallb (fun w => Nat.eqb v w) (n_owners n)) (n_owners n)) &&
+     forallb (fun m => subset (class_of g m) (class_of g i) && subset (class_of g i) (class_of g m) &&
+                       Bool.eqb (n_flat (nd g m)) (n_flat n)) (class_of g i))
+    (seq 0 (length (g_nodes g))) &&
+  n_root (nd g (g_root g)).
